@@ -10,6 +10,7 @@ import NeoModel.Proofs.PersistJump
 import NeoModel.Proofs.PersistResetMulti
 import NeoModel.Proofs.PersistGC
 import NeoModel.Proofs.PersistBlk
+import NeoModel.Proofs.PersistJumpSynced
 import NeoModel.Proofs.PersistFlush
 import NeoModel.Generated.Stages
 namespace NeoModel.Persist
@@ -360,6 +361,22 @@ theorem jump_resumable (H : Hist) {B S : Nat} (n n' : Node) (P : Nat) (bs : List
       recover H B S n'.db = .ok n' :=
   jump_resumable_all H n n' P bs hjump hsp hih
 
+/-- **jump_resumable_synced** — `jump_resumable` with every hypothesis discharged for the node the state-sync module
+leaves: for every chain content, page size, MaxTraceableBlocks, sync point `P` and number of headers `n > P`, the jump
+of `syncedNode H B P n` SUCCEEDS with the four batches, and the database after every non-empty prefix of them and
+after the completed jump reopens to exactly the node of the uninterrupted jump. -/
+theorem jump_resumable_synced (H : Hist) {B S : Nat} (hB : 1 < B) (P n : Nat) (hP : P < n) :
+    ∃ (bs : List Batch) (n' : Node) (p : Bool),
+      jump H (syncedNode H B P n) P = .ok (bs, n') ∧ bs = [jumpA, jumpB p, jumpC H P p, jumpD H P] ∧
+      recover H B S (applyBatch jumpA (syncedNode H B P n).db) = .ok n' ∧
+      recover H B S (applyBatch (jumpB p) (applyBatch jumpA (syncedNode H B P n).db)) = .ok n' ∧
+      recover H B S (applyBatch (jumpC H P p) (applyBatch (jumpB p) (applyBatch jumpA (syncedNode H B P n).db))) = .ok n' ∧
+      recover H B S n'.db = .ok n' := by
+  obtain ⟨hr, hsp, hih⟩ := syncedNode_ready H hB P n hP
+  obtain ⟨bs, n', hj⟩ := jump_ok_of_ready hr
+  obtain ⟨p, h1, h2, h3, h4, h5⟩ := jump_resumable_all (B := B) (S := S) H _ n' P bs hj hsp hih
+  exact ⟨bs, n', p, hj, h1, h2, h3, h4, h5⟩
+
 /-- **jump_resumable, the empty prefix**: a node that reopens to itself, is below its recorded sync point and has
 the headers, the state trie and the block of that point performs the pending jump when the state-sync module is
 initialised after the restart (`restartSync` = recover + Module.Init), and ends as the uninterrupted jump. -/
@@ -401,23 +418,20 @@ storeBlock waits at the persist back-pressure while the persisting routine flush
 `GInv` is the node invariant with GC floors (records from a block floor on, pages from a page floor on, both floors
 below what HeaderHashes.init reads at restart). -/
 
-/-- **crash_prefix_consistent_gc_partial** — `crash_prefix_consistent` for the whole schedule language, except
-in-block flushes on a reference-counting MPT. For every chain content, every configuration (any positive
-MaxTraceableBlocks, any GarbageCollectionPeriod), every schedule of header/block/flush steps, transfer/MPT GC commits,
-whole tryRunGC runs (with any previous persisted height) and AddBlocks with a flush during their back-pressure wait
-(`blockWait`), and every prefix `k` of the list of atomic batches — including the point between the two direct commits
-of one GC run, the flush that carries the block deletions and the flush that happens while a block waits — reopening
-succeeds, the recovered node satisfies `GInv` (tip pointers, state roots of all heights up to its own, storage
-snapshot, header records and pages above the GC floors), is not above the running node and has
-`items = itemsAt H height`.
-Full statement: the same for schedules that also contain `blockWaitRC` steps (the in-block flush as the code behaves
-when the MPT counts references). It is FALSE: `rc_flush_inside_block_breaks_restart`. -/
-theorem crash_prefix_consistent_gc_partial (H : Hist) {B : Nat} (S : Nat) (cfg : GcCfg) (hB : 1 < B) (hm : 0 < cfg.mtb)
-    (ops : List GOp) (hno : ∀ o ∈ ops, o.leaky = false) (k : Nat) (hk : k ≤ (grun H B cfg ops).2.length) :
+/-- **crash_prefix_consistent_gc** — `crash_prefix_consistent` for the whole schedule language. For every chain
+content, every configuration (any positive MaxTraceableBlocks, any GarbageCollectionPeriod), every schedule of
+header/block/flush steps, transfer/MPT GC commits, whole tryRunGC runs (with any previous persisted height) and
+AddBlocks with a flush during their back-pressure wait (`blockWait`), and every prefix `k` of the list of atomic
+batches — including the point between the two direct commits of one GC run, the flush that carries the block deletions
+and the flush that happens while a block waits — reopening succeeds, the recovered node satisfies `GInv` (tip pointers,
+state roots of all heights up to its own, storage snapshot, header records and pages above the GC floors), is not above
+the running node and has `items = itemsAt H height`. -/
+theorem crash_prefix_consistent_gc (H : Hist) {B : Nat} (S : Nat) (cfg : GcCfg) (hB : 1 < B) (hm : 0 < cfg.mtb)
+    (ops : List GOp) (k : Nat) (hk : k ≤ (grun H B cfg ops).2.length) :
     ∃ n' fb fp, recover H B S (foldBatches ((grun H B cfg ops).2.take k) Db.empty) = .ok n' ∧
       GInv H B fb fp n' ∧ n'.height ≤ (grun H B cfg ops).1.n.height ∧
       n'.items = itemsAt H n'.height ∧ n'.hdrHeight ≥ n'.height := by
-  have h := gprefix_ok cfg hB hm (gstate_fresh H hB) ops hno k hk
+  have h := gprefix_ok cfg hB hm (gstate_fresh H hB) ops k hk
   rcases h with he | ⟨m, fb, fp, m1, m2, m3, m4, _⟩
   · have he' : foldBatches ((grun H B cfg ops).2.take k) Db.empty = Db.empty := he
     rw [he']
@@ -438,23 +452,23 @@ def gcGood : List GOp :=
   [.base .block, .base .block, .base .block, .base .block, .base .block, .base .block, .base .block, .base .block, .base .flush,
    .gcRun 0 (fun _ v => v), .blockWait, .base .flush]
 
-example : (grun Hgc 2 ⟨1, 1⟩ gcGood).2.length = 5 ∧
-    (∀ k ∈ [0, 1, 2, 3, 4, 5], errOf (recover Hgc 2 1 (foldBatches ((grun Hgc 2 ⟨1, 1⟩ gcGood).2.take k) Db.empty)) = none) ∧
-    foldBatches ((grun Hgc 2 ⟨1, 1⟩ gcGood).2.take 4) Db.empty Key.curBlock = some (Val.ptr 8) ∧
-    foldBatches ((grun Hgc 2 ⟨1, 1⟩ gcGood).2.take 4) Db.empty (Key.exec 9) = some (Val.hdr 9) ∧
-    foldBatches ((grun Hgc 2 ⟨1, 1⟩ gcGood).2.take 4) Db.empty (Key.exec 3) = none ∧
-    (grun Hgc 2 ⟨1, 1⟩ gcGood).1.n.db (Key.exec 9) = some (Val.blk 9) ∧
-    (grun Hgc 2 ⟨1, 1⟩ gcGood).1.n.db (Key.page 4) = none ∧ (grun Hgc 2 ⟨1, 1⟩ gcGood).1.n.db (Key.page 6) = some Val.pagev := by
+example : (grun Hgc 2 { mtb := 1, gcp := 1 } gcGood).2.length = 5 ∧
+    (∀ k ∈ [0, 1, 2, 3, 4, 5], errOf (recover Hgc 2 1 (foldBatches ((grun Hgc 2 { mtb := 1, gcp := 1 } gcGood).2.take k) Db.empty)) = none) ∧
+    foldBatches ((grun Hgc 2 { mtb := 1, gcp := 1 } gcGood).2.take 4) Db.empty Key.curBlock = some (Val.ptr 8) ∧
+    foldBatches ((grun Hgc 2 { mtb := 1, gcp := 1 } gcGood).2.take 4) Db.empty (Key.exec 9) = some (Val.hdr 9) ∧
+    foldBatches ((grun Hgc 2 { mtb := 1, gcp := 1 } gcGood).2.take 4) Db.empty (Key.exec 3) = none ∧
+    (grun Hgc 2 { mtb := 1, gcp := 1 } gcGood).1.n.db (Key.exec 9) = some (Val.blk 9) ∧
+    (grun Hgc 2 { mtb := 1, gcp := 1 } gcGood).1.n.db (Key.page 4) = none ∧ (grun Hgc 2 { mtb := 1, gcp := 1 } gcGood).1.n.db (Key.page 6) = some Val.pagev := by
   decide
 
 /-- **continue_same_roots_gc**: from any node satisfying `GInv` with an empty write cache (every recovered one) and
 any further schedule including GC runs and blocks that wait during a flush, the state root stored for every height
 reached is the canonical one. -/
 theorem continue_same_roots_gc (H : Hist) {B : Nat} (cfg : GcCfg) (hB : 1 < B) (hm : 0 < cfg.mtb) (g : GNode) (fb fp : Nat)
-    (hn : GInv H B fb fp g.n) (hc : g.n.cache = []) (ops' : List GOp) (hno : ∀ o ∈ ops', o.leaky = false) (i : Nat)
+    (hn : GInv H B fb fp g.n) (hc : g.n.cache = []) (ops' : List GOp) (i : Nat)
     (hi : i ≤ (grunFrom H B cfg g ops').1.n.height) :
     (grunFrom H B cfg g ops').1.n.view (Key.root i) = some (Val.rootv (H.hashOf (itemsAt H i))) := by
-  obtain ⟨_, _, h⟩ := (gstate_grunFrom cfg hB hm (gstate_of_ginv hn hc) ops' hno).run
+  obtain ⟨_, _, h⟩ := (gstate_grunFrom cfg hB hm (gstate_of_ginv hn hc) ops').run
   exact h.rt i hi
 
 /-- **gc_run_crash_safe** (`gc_crash_safe` for a whole tryRunGC): on a consistent stopped-at-a-flush node
@@ -496,7 +510,7 @@ theorem gc_run_crash_safe (H : Hist) {B : Nat} (S : Nat) (cfg : GcCfg) (hB : 1 <
     exact this.symm
 
 /-- non-vacuity: the stopped node after eight blocks, one GC run with two direct commits. -/
-example : ((gcRun Hgc 2 ⟨1, 1⟩ { n := (run Hgc 2 [.block, .block, .block, .block, .block, .block, .block, .block, .flush]).1 } 0 (fun _ v => v)).2.length = 2) := by
+example : ((gcRun Hgc 2 { mtb := 1, gcp := 1 } { n := (run Hgc 2 [.block, .block, .block, .block, .block, .block, .block, .block, .flush]).1 } 0 (fun _ v => v)).2.length = 2) := by
   decide
 
 /-- **flush_during_wait_atomic** — "everything a block changes reaches the database in one batch". The batch a flush
@@ -517,17 +531,21 @@ example : (match (blockWait Hgc 2 (run Hgc 2 [.block, .block]).1).2 with
     | some b => decide (applyBatch b Db.empty Key.curBlock = some (Val.ptr 2)) && decide (applyBatch b Db.empty (Key.exec 3) = some (Val.hdr 3))
     | none => false) = true := by decide
 
-/-- **the code violates the full statement on a node whose MPT counts references** (genuine defect, known finding
-rcwait-continue-addblock): one block in the write cache, the second AddBlock waits and a flush happens. With the
-atomic merge (`blockWait`) the batch reopens at height 1; as the code behaves with a reference-counting MPT
-(`blockWaitRC`: Trie.updateRefCount rewrites the released nodes of state 1 in place inside the shared write cache)
-the same batch leaves tip 1 without a loadable state 1. -/
+/-- **regression example for fix 956252a** (the in-block flush as the code behaved with a reference-counting MPT
+before: `blockWaitOldRC`, Trie.updateRefCount rewrote the released nodes of the previous state in place inside the
+shared write cache). One block in the write cache, the second AddBlock waits and a flush happens: with the atomic
+merge of the code as it is now (`blockWait`) the batch reopens at height 1; under the old behaviour the same flush
+left tip 1 without a loadable state 1 (`noRoot`; on the real code: reopen at 1, then "error while trying to apply MPT
+changes: key not found" on block 2). -/
+def rcWitnessNode : Node := (run Hgc 2 [.block]).1
+
 theorem rc_flush_inside_block_breaks_restart :
-    (grun Hgc 2 ⟨1, 1⟩ [.base .block, .blockWait]).2.length = 1 ∧
-    errOf (recover Hgc 2 1 (foldBatches (grun Hgc 2 ⟨1, 1⟩ [.base .block, .blockWait]).2 Db.empty)) = none ∧
-    (grun Hgc 2 ⟨1, 1⟩ [.base .block, .blockWaitRC]).2.length = 1 ∧
-    foldBatches (grun Hgc 2 ⟨1, 1⟩ [.base .block, .blockWaitRC]).2 Db.empty Key.curBlock = some (Val.ptr 1) ∧
-    errOf (recover Hgc 2 1 (foldBatches (grun Hgc 2 ⟨1, 1⟩ [.base .block, .blockWaitRC]).2 Db.empty)) = some .noRoot := by
+    (match (blockWait Hgc 2 rcWitnessNode).2 with
+     | some b => errOf (recover Hgc 2 1 (applyBatch b Db.empty)) | none => some .badStage) = none ∧
+    (match (blockWaitOldRC Hgc 2 rcWitnessNode).2 with
+     | some b => decide (applyBatch b Db.empty Key.curBlock = some (Val.ptr 1)) | none => false) = true ∧
+    (match (blockWaitOldRC Hgc 2 rcWitnessNode).2 with
+     | some b => errOf (recover Hgc 2 1 (applyBatch b Db.empty)) | none => none) = some .noRoot := by
   decide
 
 /-- **regression example for fix 2cd5b80** (the rule removeOldHeaderHashes had before: `gcRunOld`, pages up to
@@ -538,11 +556,11 @@ retrieve header hash page"); the rule of the code as it is now drops nothing the
 def gcWitnessNode : Node := (run Hgc 2 [.block, .block, .block, .block, .flush]).1
 
 theorem gc_removes_needed_header_page :
-    (gcRunOld Hgc 2 ⟨1, 1⟩ { n := gcWitnessNode } 0 (fun _ v => v)).2.length = 2 ∧
-    errOf (recover Hgc 2 1 (foldBatches ((gcRunOld Hgc 2 ⟨1, 1⟩ { n := gcWitnessNode } 0 (fun _ v => v)).2.take 1) gcWitnessNode.db)) = none ∧
-    errOf (recover Hgc 2 1 (foldBatches (gcRunOld Hgc 2 ⟨1, 1⟩ { n := gcWitnessNode } 0 (fun _ v => v)).2 gcWitnessNode.db)) = some .noPage ∧
-    (gcRun Hgc 2 ⟨1, 1⟩ { n := gcWitnessNode } 0 (fun _ v => v)).2.length = 1 ∧
-    errOf (recover Hgc 2 1 (foldBatches (gcRun Hgc 2 ⟨1, 1⟩ { n := gcWitnessNode } 0 (fun _ v => v)).2 gcWitnessNode.db)) = none := by
+    (gcRunOld Hgc 2 { mtb := 1, gcp := 1 } { n := gcWitnessNode } 0 (fun _ v => v)).2.length = 2 ∧
+    errOf (recover Hgc 2 1 (foldBatches ((gcRunOld Hgc 2 { mtb := 1, gcp := 1 } { n := gcWitnessNode } 0 (fun _ v => v)).2.take 1) gcWitnessNode.db)) = none ∧
+    errOf (recover Hgc 2 1 (foldBatches (gcRunOld Hgc 2 { mtb := 1, gcp := 1 } { n := gcWitnessNode } 0 (fun _ v => v)).2 gcWitnessNode.db)) = some .noPage ∧
+    (gcRun Hgc 2 { mtb := 1, gcp := 1 } { n := gcWitnessNode } 0 (fun _ v => v)).2.length = 1 ∧
+    errOf (recover Hgc 2 1 (foldBatches (gcRun Hgc 2 { mtb := 1, gcp := 1 } { n := gcWitnessNode } 0 (fun _ v => v)).2 gcWitnessNode.db)) = none := by
   decide
 
 /-! ## 5. a failed flush (MemCachedStore.persist's error branch, Model/PersistFlush.lean) -/
